@@ -169,7 +169,9 @@ CHECKS["C09"] = {
                        "top-level-union:dynamic", "form:T.reads(memoryview)",
                        "form:cs.read(name, BytesIO)", "char-shortcut", "direct:buffered-file",
                        "direct:unbuffered-file", "direct:BytesIO",
-                       "direct:forward-only-stream", "text-mode-stream"],
+                       "direct:forward-only-stream", "text-mode-stream", "direct:mmap",
+                       "pointer-table:mmap", "pointer-table:unbuffered-file", "pointer-table:minimal-reader",
+                       "pointer-table:memoryview"],
     "assumptions": ASSUME_COMMON,
 }
 
@@ -438,7 +440,7 @@ CHECKS["C18"] = {
                        "transition:alignment-grows", "self-reference", "instances-exist-before-extension",
                        "batch-left-by-exception", "discard-fields-sequence", "array-of-intermediate-state", "refused-extension-in-between",
                        "container-declared-before-member-extension",
-                       "explicit-offset-after-dynamic-field", "straddling-bit-field-in-a-later-commit", "union-written-before-extension", "self-referential-array-member"],
+                       "explicit-offset-after-dynamic-field", "explicit-offsets-in-later-commits", "straddling-bit-field-in-a-later-commit", "union-written-before-extension", "self-referential-array-member"],
     "assumptions": ASSUME_COMMON,
 }
 
